@@ -116,6 +116,13 @@ _module = sys.modules.get('pywbem._mof_compiler', None)
 # Directory for _tabmodule and _lextab
 _tabdir = os.path.dirname(os.path.abspath(__file__))
 
+# Maximum nesting depth of MOF files that are compiled on behalf of other MOF
+# files (by include pragmas, or to resolve superclasses, qualifier declarations
+# and other dependencies from the search path). The limit protects against
+# unbounded recursion for MOF files that include or depend on each other in a
+# cycle.
+MAX_MOF_FILE_NESTING = 50
+
 # wbem_uri Namespace path regex used to test pragma namespace
 WBEM_URI_NAMESPACEPATH_REGEXP = re.compile(
     r'^(?:([\w\-]+):)?'  # namespace type (URI scheme)
@@ -2863,6 +2870,9 @@ class MOFCompiler:
         # not None.
         self.parser.embedded_objects = None
 
+        # Current nesting depth of compile_file()
+        self._file_nesting = 0
+
     def conn_close(self):
         """
         Close the underlying connection, if it is a WBEMConnection.
@@ -3076,6 +3086,8 @@ class MOFCompiler:
 
           IOError: MOF file not found.
           MOFCompileError: Error compiling the MOF.
+          MOFDependencyError: MOF files include or depend on each other in a
+            cycle (nesting deeper than MAX_MOF_FILE_NESTING levels).
         """
         if self.parser.verbose:
             self.parser.log(
@@ -3091,7 +3103,18 @@ class MOFCompiler:
         with open(filename, encoding='utf-8') as f:
             mof = f.read()
 
-        return self.compile_string(mof, ns, filename=filename)
+        if self._file_nesting >= MAX_MOF_FILE_NESTING:
+            raise MOFDependencyError(
+                msg=_format(
+                    "Cannot compile MOF file {0!A} because the MOF files that "
+                    "include or depend on each other are nested deeper than "
+                    "{1} levels (cyclic include or dependency?)",
+                    filename, MAX_MOF_FILE_NESTING))
+        self._file_nesting += 1
+        try:
+            return self.compile_string(mof, ns, filename=filename)
+        finally:
+            self._file_nesting -= 1
 
     def find_mof(self, classname):
         """
